@@ -43,12 +43,12 @@ def slices(ctx):
         s["poly-depth2"] = (dict(FULL, Quarters=[1, 2], Shifts=[(1, 0), (-2, 1)], Factors=[(-1, 1), (2, 1), (-1, -2)], Origins=[(0, 0)],
                                  Boxes=[B_OVER, B_ADJ], MaxBoxes=2, MaxOps=2, PolyOps=pa.POLY_OPS, DevOps=[]), True)
         s["setops-depth3"] = (dict(MINI, Boxes=[B_OVER, B_ADJ], MinBoxes=2, MaxBoxes=2, MaxOps=3, Chained=True, PolyOps=["setop"], DevOps=[]), True)
-        s["devices-depth3"] = (dict(MINI, Boxes=[B_BIG, B_IN], MinBoxes=2, MaxBoxes=2, MaxOps=3, Chained=True, PolyOps=["translate", "poke"], DevOps=pa.DEV_OPS), True)
+        s["devices-depth3"] = (dict(MINI, Origins=[(0, 0), (1, -1)], Boxes=[B_BIG, B_IN], MinBoxes=2, MaxBoxes=2, MaxOps=3, Chained=True, PolyOps=["translate", "poke"], DevOps=pa.DEV_OPS), True)
     else:
         s["poly-depth2"] = (dict(FULL, Boxes=[B_OVER, B_ADJ, B_BIG], MaxBoxes=2, MaxOps=2, PolyOps=pa.POLY_OPS, DevOps=[]), True)
         s["setops-depth3"] = (dict(MINI, Boxes=[B_OVER, B_ADJ, B_BIG], MaxBoxes=2, MaxOps=3, PolyOps=["setop"], DevOps=[]), True)
         s["setops-depth3-3boxes"] = (dict(MINI, Boxes=[B_OVER, B_ADJ, B_BIG], MaxBoxes=3, MaxOps=3, PolyOps=["setop"], DevOps=[]), False)
-        s["devices-depth3"] = (dict(MINI, Boxes=[B_BIG, B_IN, B_OUT], MaxBoxes=3, MaxOps=3, PolyOps=["translate", "poke"], DevOps=pa.DEV_OPS), True)
+        s["devices-depth3"] = (dict(MINI, Origins=[(0, 0), (1, -1)], Boxes=[B_BIG, B_IN, B_OUT], MaxBoxes=3, MaxOps=3, PolyOps=["translate", "poke"], DevOps=pa.DEV_OPS), True)
         s["poly-depth3"] = (dict(MINI, Boxes=[B_OVER, B_ADJ], MaxBoxes=2, MaxOps=3, PolyOps=pa.POLY_OPS, DevOps=[]), True)
         s["setops-all-boxes"] = (dict(FULL, Boxes=pa.all_boxes(3), MaxBoxes=2, MaxOps=1, PolyOps=["setop"], DevOps=[]), False)
     return s
@@ -161,7 +161,7 @@ def run(ctx):
                                       for k, v in sorted(opcount.items())}
     # vacuity on the implementation side: every operation kind was executed, set operations with both outcomes
     for op in pa.POLY_OPS + pa.DEV_OPS:
-        if not any(k[0] == op and k[3] == "ok" for k in opcount):
+        if not any(k[0] == op and k[3] == "ok" for k in opcount) and not ctx.violations:
             raise core.MachineryFailure(f"C18: operation {op} never executed successfully on the real classes")
     for kind in ("union", "intersection", "difference"):
         for out in ("ok", "ValueError"):
@@ -175,7 +175,11 @@ def run(ctx):
         ctx.sample({"relations": rel_tr[n]["key"], "events": rel_tr[n]["ev"][:6]})
 
     # ---- canaries of the binding: corrupted traces must be rejected
-    trace_canaries(ctx, chain_tr, acc_c, rel_tr, acc_r)
+    try:
+        trace_canaries(ctx, chain_tr, acc_c, rel_tr, acc_r)
+    except core.MachineryFailure:
+        if not ctx.violations:      # with rejected executions there may be no accepted trace left to corrupt
+            raise
 
     ctx.cov["rule"] = ("chains of operations exported by TLC from PolyAlg (prefix-closed enumeration of each slice) executed with real "
                        "Polygon/Device objects; every state after every operation validated by TLC; distinct = distinct "
